@@ -61,6 +61,27 @@ class Run:
         self.r.fail("program|%s" % key, text, self.loc)
 
 
+def guarded(fn):
+    """a rule whose interpretation meets a construct the evaluator cannot follow outside a parse (printing a tree, say) declines with
+    an analysis error of its own; the other rules of the check still report (exit 1 outranks exit 2)"""
+    import functools
+
+    @functools.wraps(fn)
+    def wrapper(m, rid, tier, *a, **k):
+        try:
+            return fn(m, rid, tier, *a, **k)
+        except PE.Unsupported as err:
+            r = RuleResult(rid, "whole programs by interpretation (%s)" % fn.__name__)
+            r.error("%s: the program cannot be interpreted statically (%s)" % (fn.__name__, err))
+            return r
+        except PE.PyRaise as err:
+            r = RuleResult(rid, "whole programs by interpretation (%s)" % fn.__name__)
+            r.error("%s: the interpreted code raises %s outside a parse (%s)" % (fn.__name__, err.exc_type, (err.msg or "")[:80]))
+            return r
+    return wrapper
+
+
+
 def pick(names, tier, k):
     names = sorted(names)
     if tier == "thorough":
@@ -94,6 +115,7 @@ def shape(node):
     return PI.tree_shape(node)
 
 
+@guarded
 def roundtrip_rule(m, rid, tier, tokens=False):
     what = ("token for token: every name (in its spelling), character literal and number of the source appears in the regenerated text, in "
             "order, and nothing else does" if tokens else
@@ -203,6 +225,7 @@ def statement_lines(src):
     return lines, out
 
 
+@guarded
 def errline_rule(m, rid, tier):
     r = RuleResult(rid, "the reported error line, by interpretation of whole programs: one statement of a valid program (any position: "
                         "specification part, nested constructs, contained subprograms, END and opening statements included) is replaced "
@@ -257,6 +280,7 @@ def one_line_form(line):
     return bool(rest) and rest != "then"
 
 
+@guarded
 def nesting_rule(m, rid, tier):
     r = RuleResult(rid, "ill-nested programs are rejected, by interpretation of whole programs: from each valid program, variants are made "
                         "by deleting an END statement, repeating one, deleting an opening statement, giving an END another construct or "
@@ -331,6 +355,7 @@ def tables_snapshot(w):
     return sorted(one(t) for t in top.values()), (w.tables.fields.get("_current_scope") is None)
 
 
+@guarded
 def state_rule(m, rid, tier):
     r = RuleResult(rid, "a failed parse leaves nothing behind, by interpretation of whole programs: the same (interpreted) parser is given "
                         "an invalid program -- an error at depth, inside nested scoping units -- and then a valid one; after the failure "
@@ -394,6 +419,7 @@ def state_rule(m, rid, tier):
 
 
 # =====================================================================================================
+@guarded
 def tree_rule(m, rid, tier):
     r = RuleResult(rid, "the tree is a tree, by interpretation of whole programs (Base.__new__, BlockBase.match, _set_parent and walk "
                         "interpreted): in the tree of every sample program each node object occurs once, the parent of every node is the "
@@ -463,6 +489,7 @@ def tree_rule(m, rid, tier):
 
 
 # =====================================================================================================
+@guarded
 def comments_rule(m, rid, tier):
     r = RuleResult(rid, "comments in the tree, by interpretation of whole programs: with comments kept, every comment of the sample "
                         "programs (leading, between statements, trailing, inside a continuation, inside constructs, after the last END) "
@@ -578,6 +605,7 @@ EXPECTED_INTRINSICS = {
 }
 
 
+@guarded
 def symtab_rule(m, rid, tier):
     r = RuleResult(rid, "symbol tables after a parse, by interpretation of whole programs: for the sample programs there is one top-level "
                         "table per module / main program / external subprogram and one nested table per contained subprogram, each with "
@@ -655,10 +683,12 @@ def symtab_rule(m, rid, tier):
 
 
 # =====================================================================================================
+@guarded
 def standards_rule(m, rid, tier):
     r = RuleResult(rid, "the two standards on whole programs, by interpretation: every Fortran 2003 sample program is accepted by the "
                         "parser created for Fortran 2008 and regenerates to the same text (comments kept and ignored); the Fortran 2008 "
-                        "samples (BLOCK, CRITICAL, ERROR STOP, SUBMODULE) are accepted for 2008 and rejected with FortranSyntaxError for 2003")
+                        "samples (BLOCK, CRITICAL, ERROR STOP, SUBMODULE) are accepted for 2008 and rejected with FortranSyntaxError for 2003; "
+                        "with the symbol tables' consistency checks switched on the samples are accepted all the same")
     run = Run(m, r)
     for name in pick(PS.VALID, tier, 2):
         for ic in ((True, False) if tier == "thorough" else (False,)):
@@ -696,7 +726,26 @@ def standards_rule(m, rid, tier):
         if not ok:
             run.fail("standards|2008|%s" % name, "the Fortran 2008 program %r: 2008 parser -> %s, 2003 parser -> %s (expected a tree and "
                      "FortranSyntaxError)" % (name, b[0] if b[0] == "tree" else b[1], a[0] if a[0] == "tree" else a[1]))
-    r.floor = 4
+    # the same with the symbol tables' consistency checks switched on (SYMBOL_TABLES.enable_checks, a public non-default
+    # configuration): a program without duplicate declarations is accepted all the same and gives the same text
+    for std, table in (("f2008", PS.VALID_2008), ("f2003", PS.VALID), ("f2008", PS.VALID)):
+        names = sorted(table) if (tier == "thorough" or table is PS.VALID_2008) else pick(table, tier, 1)
+        for name in names:
+            a = run.parse(std, table[name], ignore_comments=True)
+            b = run.parse(std, table[name], ignore_comments=True, symbol_checks=True)
+            if a is None or b is None:
+                if run.dead:
+                    return r
+                continue
+            r.instances += 1
+            ok = a[0] == "tree" and b[0] == "tree" and str(a[1]) == str(b[1])
+            r.ob(ok, "%s (%s): accepted with the table checks on" % (name, std))
+            if not ok:
+                run.fail("standards|checks|%s|%s" % (std, name), "the sample program %r is %s by the %s parser once SYMBOL_TABLES.enable_checks(True) "
+                         "is in force (without the checks: %s)"
+                         % (name, "rejected with %s %s" % (b[1], (b[2] or "")[:80]) if b[0] != "tree" else "regenerated differently", std,
+                            "a tree" if a[0] == "tree" else a[1]))
+    r.floor = 6
     return r
 
 
@@ -742,6 +791,7 @@ GARBAGE_SOURCES = [
 ]
 
 
+@guarded
 def garbage_rule(m, rid, tier):
     r = RuleResult(rid, "a tree or a FortranSyntaxError, by interpretation of whole programs: %d malformed sources (errors in every kind "
                         "of statement and at every nesting depth, wrong intrinsic arity, unbalanced delimiters, stray END, mismatched "
@@ -768,6 +818,7 @@ def garbage_rule(m, rid, tier):
 
 
 # =====================================================================================================
+@guarded
 def include_rule(m, rid, tier):
     r = RuleResult(rid, "INCLUDE in the tree, by interpretation of whole programs on a virtual file system: a run of whole statements of a "
                         "sample program (any run: it may start or end inside a construct) is moved into a file and replaced by an "
@@ -842,6 +893,7 @@ DIRECTIVES = ["#if defined(X) && (Y > 1)", "#ifdef X", "#ifndef X", "#elif Y", "
               "#define F(x) ((x) + 1)", "#undef A", "#line 12 \"f.F90\"", "#error stop here", "#warning careful", "#"]
 
 
+@guarded
 def directive_rule(m, rid, tier):
     r = RuleResult(rid, "preprocessor lines in the tree, by interpretation of whole programs: %d kinds of directive lines are inserted "
                         "between the statements of the sample programs (at any depth, before the first and after the last statement); "
@@ -882,8 +934,11 @@ def directive_rule(m, rid, tier):
                 got = [l.strip() for l in text if l.strip().startswith("#")]
                 # (a directive in front of a construct is collected as the first child of that construct, which only moves the
                 # indentation of the opening statement: lines are compared without their indentation)
-                rest = "\n".join(l.strip() for l in text if not l.strip().startswith("#"))
-                ok = got == used and rest == "\n".join(l.strip() for l in base_text.split("\n"))
+                # (a statement label is printed over the first columns of the indentation: the blanks behind it belong to it)
+                def flat(l):
+                    return re.sub(r"^(\d+)\s+", r"\1 ", l.strip())
+                rest = "\n".join(flat(l) for l in text if not l.strip().startswith("#"))
+                ok = got == used and rest == "\n".join(flat(l) for l in base_text.split("\n"))
                 why = ("the directive lines of the regenerated text are %r, inserted were %r" % (got, used)) if got != used else \
                     "apart from the directive lines the regenerated text differs from that of the original program"
             else:
@@ -933,6 +988,7 @@ def statements_of(src):
     return out
 
 
+@guarded
 def layout_rule(m, rid, tier, form="free"):
     feats_free = [("continuation at token boundaries", {"split"}), ("continuation with leading '&' and comment lines between", {"split", "lead", "between"}),
                   ("continuation inside character literals", {"split-literal"}), ("statements joined with ';'", {"semicolon"}),
@@ -990,6 +1046,7 @@ def layout_rule(m, rid, tier, form="free"):
     return r
 
 
+@guarded
 def conditional_rule(m, rid, tier):
     r = RuleResult(rid, "conditional-compilation lines in whole programs, by interpretation of reader and parser together: three "
                         "statements of each sample program are put behind the '!$ ' sentinel (continuation lines '!$ &'); with the "
